@@ -79,6 +79,10 @@ def cases(tier, rng):
         for bad in ["", "X", "IIII", "VIII", "IVI", "Q7", "H", "#", "bb"]:
             yield Case("prog.to_chords", [[bad], k], "to_chords/unrecognised", kind=("tcbad",))
         yield Case("prog.to_chords", [["I", "IV", "V7", "bVII", "ii7", "#ivdim7"], k], "to_chords/list", kind=("tclist",))
+        # the same degree more than once in one progression, with and without an accidental prefix, in both orders
+        for lst in (["bII", "II"], ["II", "bII", "II"], ["bI", "Im7"], ["#V7", "V7"], ["VII7", "bVII7", "VII7"], ["bbIII", "III", "#III"],
+                    ["IV", "IV", "#IV", "IV"], ["vi7", "bvi7", "vi", "bvi"], ["I7", "I", "bI7", "I7", "I"]):
+            yield Case("prog.to_chords", [lst, k], "to_chords/repeated-degree", kind=("tclist",))
         # one unrecognised numeral among good ones, in every position: the documented empty answer, not a shorter list
         for bad in ["IIII", "X", ""]:
             for lst in ([bad, "I"], ["I", bad], ["I", bad, "V7"], ["ii", "V7", bad]):
